@@ -447,7 +447,8 @@ def constructor_contracts(reg):
             ext = it.new_array("extended", m0, "real")
             ef = ext.buf.base_fn
             ii = z3.Int("i!q")
-            it.assume(z3.And(n >= 1, m0 >= 1, increasing(qf, n), increasing(ef, m0), qf(0) > 0))
+            it.assume(z3.And(n >= 1, m0 >= 1, increasing(qf, n), increasing(ef, m0),
+                             z3.ForAll([ii], z3.Implies(z3.And(ii >= 0, ii < n), qf(ii) > 0))))
             seen = {}
 
             def extend(it_, a, k):
@@ -483,13 +484,18 @@ def constructor_contracts(reg):
             gl = grid.length()
             gle = gl.e if isinstance(gl, Sym) else z3.IntVal(gl)
             facts = _selected_facts(it, grid, k) + _selected_facts(it, grid, k + 1)
-            cutoff = _float(0.02) * qf(0)          # q increasing: min(q) = q[0]
-            minfacts = []
-            for which, v, at, get, nn in it.ghost.get("extremes", []):
-                minfacts += [at >= 0, at < nn]
+            mins = [(v, at) for which, v, at, get, nn in it.ghost.get("extremes", []) if which == "min"]
+            if not mins:
+                reg.prove("%s.%s.cutoff_is_taken_from_the_smallest_data_q" % (PROP, cls), it.pc, z3.BoolVal(False),
+                          function=fn, replay=rp)
+                return
+            qmin_v, qmin_at = mins[0]
+            cutoff = _float(0.02) * qmin_v          # MINIMUM_ABSOLUTE_Q * min(q)
+            minfacts = [qmin_at >= 0, qmin_at < n, qf(qmin_at) == qmin_v, qf(qmin_at) > 0]
             reg.prove("%s.%s.grid_for_the_weights_keeps_only_abs_q_at_least_0p02_min_q" % (PROP, cls),
-                      pc + facts + [k >= 0, k < gle],
-                      z3.Or(grid.at(k) >= cutoff, -grid.at(k) >= cutoff), function=fn, replay=rp, timeout_ms=60000)
+                      list(it.pc) + facts + minfacts + [k >= 0, k < gle],
+                      z3.And(cutoff > 0, z3.Or(grid.at(k) >= cutoff, -grid.at(k) >= cutoff)), function=fn, replay=rp,
+                      timeout_ms=60000)
             # monotonicity of the extended grid at the two selected positions (instance of 'increasing',
             # which by induction gives a < b => ext[a] < ext[b])
             mono_inst = []
@@ -505,7 +511,7 @@ def constructor_contracts(reg):
             fl = final.length()
             fle = fl.e if isinstance(fl, Sym) else z3.IntVal(fl)
             reg.prove("%s.%s.theory_is_requested_at_strictly_positive_q_only" % (PROP, cls),
-                      pc + facts + [k >= 0, k < fle, k < gle], z3.And(final.at(k) > 0, fle == gle,
+                      list(it.pc) + facts + minfacts + [k >= 0, k < fle, k < gle], z3.And(final.at(k) > 0, fle == gle,
                                                                       z3.Or(final.at(k) == grid.at(k), final.at(k) == -grid.at(k))),
                       function=fn, replay=rp, timeout_ms=60000)
             if cls == "Pinhole1D":
